@@ -36,6 +36,7 @@ var (
 	replay   = flag.String("replay", "", "replay file: lines `doc <xBASE> <xDOCUMENT>` or protocol lines `rx.plan …`")
 	scale    = flag.Int("scale", 1, "multiply generated case counts (search mode uses 10)")
 	nomodel  = flag.Bool("nomodel", false, "no driver: compare the decoder with the generator's intended graph and the two decoder configurations with each other")
+	mode     = flag.String("mode", "", "\"\" = property C09 (documents vs denotation); \"dec\" = part C09D: token streams vs the decoder model (dec.go)")
 	hints    = flag.String("hints", "", "file of protocol lines that disagreed; replayed first")
 )
 
@@ -717,6 +718,10 @@ func (h *harness) onePlan(it *planItem, res []string, i, perPlan int, serHist ma
 
 func main() {
 	flag.Parse()
+	if *mode == "dec" {
+		mainDec()
+		return
+	}
 	seed := vh.SeedFromEnv()
 	rep := vh.NewReport("C09", *tier, seed, "grammar-directed RDF/XML plans (typed / rdf:Description node elements; rdf:about, rdf:ID, rdf:nodeID, anonymous subjects; property attributes incl. rdf:type; literal, typed, empty, rdf:resource, rdf:nodeID, nested, parseType Resource / Collection / Literal property elements; rdf:li and rdf:_n; rdf:ID reification; xml:base and xml:lang on any element; relative references; at 3% a wide family: 9/10/11/99/100/101 rdf:li children mixed with explicit rdf:_n and a nested parseType=Resource counter, 50-300 property elements, 16-128 property attributes, character data / attribute values / IRIs around 256, 4096, 8192 and 65536 bytes, nesting to depth 50) x 2 random XML serialisations each (prefixes, default namespaces, shadowing, attribute order/quotes, entity and character references, CDATA, comments, PIs, white space) x text-offset capture off/on, plus random graphs of the fragment written by the Lean writer RX.writeAuto under random switch settings, plus the 169 W3C RDF/XML test documents; non-trivial = the plan / graph has at least one triple")
 	fs, err := vh.LoadFindings(*findings)
